@@ -284,7 +284,9 @@ Definition join_reads (l : log) (src_id : N) (same_instance : bool)
                      else oslice vals in
           let ents2 := from_entries tmp in
           let heads2 := from_entries (find_heads (from_entries tmp)) in
-          (finish (mkLog (l_id l) ents2 heads2 nx (l_time l) (l_cid l) (l_key l) (l_sort l) (l_deny l)), Ok tt)
+          (* the next index is rebuilt from the kept entries *)
+          let nx2 := fold_left (fun nx e => fold_left (fun nx n => oset nx n e) (e_next e) nx) tmp [] in
+          (finish (mkLog (l_id l) ents2 heads2 nx2 (l_time l) (l_cid l) (l_key l) (l_sort l) (l_deny l)), Ok tt)
       end
   end.
 
